@@ -5,6 +5,7 @@
 package route
 
 import (
+	"github.com/cnotch/ipchub/utils/simhook"
 	"sync"
 
 	"github.com/cnotch/ipchub/utils"
@@ -67,6 +68,7 @@ type routetable struct {
 }
 
 func (t *routetable) Reset(provider Provider) {
+	simhook.BeforeRWLock(&t.lock)
 	t.lock.Lock()
 	defer t.lock.Unlock()
 
@@ -97,6 +99,7 @@ func (t *routetable) Reset(provider Provider) {
 }
 
 func (t *routetable) Match(path string) *Route {
+	simhook.BeforeRLock(&t.lock)
 	t.lock.RLock()
 	defer t.lock.RUnlock()
 
@@ -138,6 +141,7 @@ func (t *routetable) Match(path string) *Route {
 }
 
 func (t *routetable) Get(pattern string) *Route {
+	simhook.BeforeRLock(&t.lock)
 	t.lock.RLock()
 	defer t.lock.RUnlock()
 
@@ -147,6 +151,7 @@ func (t *routetable) Get(pattern string) *Route {
 }
 
 func (t *routetable) Del(pattern string) error {
+	simhook.BeforeRWLock(&t.lock)
 	t.lock.Lock()
 	defer t.lock.Unlock()
 
@@ -178,6 +183,7 @@ func (t *routetable) Del(pattern string) error {
 }
 
 func (t *routetable) Save(newr *Route) error {
+	simhook.BeforeRWLock(&t.lock)
 	t.lock.Lock()
 	defer t.lock.Unlock()
 
@@ -221,6 +227,7 @@ func (t *routetable) Save(newr *Route) error {
 }
 
 func (t *routetable) Flush() error {
+	simhook.BeforeRWLock(&t.lock)
 	t.lock.Lock()
 	defer t.lock.Unlock()
 
@@ -239,6 +246,7 @@ func (t *routetable) Flush() error {
 }
 
 func (t *routetable) All() []*Route {
+	simhook.BeforeRLock(&t.lock)
 	t.lock.RLock()
 	defer t.lock.RUnlock()
 
